@@ -130,6 +130,10 @@ def curated(kind="general"):
     L.append(N("Imply", N("Any", i(), a()), N("Xor", j(), b(), id="C"), id="A"))
     L.append(N("XNor", i(), a(), b(), id="A"))
     L.append(N("All", i(), N("Any", a(), N("All", j(), b(), id="C"), id="B"), id="A"))
+    # a connective directly inside the same connective, inner id generated (flattening the nesting is only valid for 0/1 children)
+    L.append(N("All", N("All", i(), j()), c(), id="A"))
+    L.append(N("Any", N("Any", j(), a()), b(), id="A"))
+    L.append(N("Imply", N("All", N("All", a(), i()), b()), N("Any", N("Any", c(), j()), d()), id="A"))
     # deeper
     L.append(N("All", N("Any", N("All", a(), b(), id="D"), c(), id="B"), AL(2, d(), i(), id="C", sign=1), id="A"))
     L.append(AL(1, AM(2, a(), b(), c(), id="B"), AL(4, i(), j(), id="C", sign=1), id="A", sign=1))
